@@ -179,7 +179,7 @@ def run(ctx, col: Collector):
             texts = [c.value for c in ast.walk(fi.node) if isinstance(c, ast.Constant) and isinstance(c.value, str)]
             seen_h = {fi.id}
             frontier = [(fi, {})]
-            for _ in range(2):
+            for _ in range(4):
                 nxt_f = []
                 for f0, ren0 in frontier:
                     for c in ast.walk(f0.node):
@@ -274,9 +274,14 @@ def run(ctx, col: Collector):
                 elif not hits:
                     col.unk('C04-roles', cons, f'{gname}: cannot see what follows `{kw}`', node=fi.node, file=fi.file)
                 else:
-                    h = hits[0]
-                    okp = h[4] == f'{m}.{attr}' or h[4].endswith(f'.{attr}')
-                    okg = any(t.endswith(f'.{attr}') and pol for t, pol in h[3])
+                    def _okp(h_):
+                        return h_[4] == f'{m}.{attr}' or h_[4].endswith(f'.{attr}')
+
+                    def _okg(h_):
+                        return any(t.endswith(f'.{attr}') and pol for t, pol in h_[3])
+                    # the place that writes the keyword with its value under the test (a helper of the generator counts: the other hits are the same text passed on)
+                    h = next((h_ for h_ in hits if _okp(h_) and _okg(h_)), hits[0])
+                    okp, okg = _okp(h), _okg(h)
                     col.check(okp and okg, 'C04-roles', cons, f'{kw} <{attr}> is emitted when {attr} is set',
                               f'{gname}: after `{kw}` comes `{h[4]}` under {[t for t, _ in h[3]]}; expected {m}.{attr} under a test of that attribute',
                               node=h[1].node, file=h[1].fn.file)
